@@ -45,7 +45,7 @@ class fixed_scalar_array(base_array):
 
     def __setitem__(self, idx, value):
         if isinstance(idx, slice):
-            if idx.step is None:
+            if idx.step is None or idx.step == 1:
                 self.__setslice__(idx.start, idx.stop, value)
             else:
                 self._values[idx] = list(map(self._TYPE._check, value))
@@ -100,7 +100,7 @@ class bound_scalar_array(base_array):
 
     def __setitem__(self, idx, value):
         if isinstance(idx, slice):
-            if idx.step is None:
+            if idx.step is None or idx.step == 1:
                 self.__setslice__(idx.start, idx.stop, value)
             else:
                 self._values[idx] = list(map(self._TYPE._check, value))
